@@ -21,7 +21,6 @@ distribution objects handed in (np.linspace for `uniform`).
 """
 
 import itertools
-import math
 
 import numpy as np
 
@@ -36,7 +35,11 @@ RULE = ("(a) every one of the 25 polar coefficients and 25 aliases, angular_spre
         "tilt ensemble -> CTF ensemble -> second multislice; (f) ensemble_mean with unit and non-uniform weights on "
         "every path. non-trivial = members differ from each other by > 100x tolerance; distinct = distinct case dict")
 BOUNDS = {"grids": [[16, 18], [15, 15], [12, 20]], "axis_lengths": [2, 5], "ensemble_axes": [1, 5], "energy_eV": [6e4, 3e5],
-          "tilt_mrad": [-40, 40], "slices": [2, 5]}
+          "tilt_mrad": [-40, 40], "slices": [2, 5],
+          "cases": {"quick": {"ctf-single": 53, "ctf-multi": 60, "transform": 22, "probe": "2 covering arrays + 20",
+                              "planewave": 16, "chain": 20, "ensemble_mean": 23},
+                    "thorough": {"ctf-single": 212, "ctf-multi": 600, "transform": 88, "probe": "12 covering arrays + 20",
+                                 "planewave": 64, "chain": 80, "ensemble_mean": 92}}}
 EXHAUSTIVE = False
 ASSUMPTIONS = [
     "float32 pipeline: max abs deviation <= 2e-5 * max|reference| counts as equal (observed <= 5e-7)",
@@ -211,7 +214,7 @@ def _probe_case(r, sel, weighted=False, mean=False, run=None):
                 weighted=weighted, averaged=mean, **g)
 
 
-def cases(tier, seed):
+def _cases(tier, seed):
     thorough = tier == "thorough"
     reps = 4 if thorough else 1
     # (a) single-axis CTF ensembles: every coefficient, alias, spread, cutoff
@@ -321,6 +324,36 @@ def cases(tier, seed):
                                lazy=bool(k % 2), max_batch="auto", atoms="si", atoms_seed=int(r.integers(1000)),
                                height=float(r.uniform(4.0, 8.0)), slice_thickness=2.0, weighted=weighted, averaged=True, run="detect",
                                **_grid(r))
+
+
+def _features(case):
+    """coarse input features, so that known-finding entries can be keyed with `'x' in case['features']`"""
+    p = case.get("params", {})
+    f = []
+    if any(isinstance(v, dict) and k not in ("semiangle_cutoff", "focal_spread", "angular_spread") for k, v in p.items()):
+        f.append("aberration_dist")
+    if isinstance(p.get("semiangle_cutoff"), dict):
+        f.append("cutoff_dist")
+    if isinstance(p.get("focal_spread"), dict) or isinstance(p.get("angular_spread"), dict):
+        f.append("spread_dist")
+    if (case.get("tilt") or {}).get("mode", "scalar") != "scalar":
+        f.append("tilt_dist")
+    if case.get("soft") is False:
+        f.append("hard_aperture")
+    if case.get("weighted"):
+        f.append("weighted")
+    if case.get("averaged"):
+        f.append("ensemble_mean")
+    if case.get("lazy"):
+        f.append("lazy")
+    f.append("family:" + case["family"].split("-")[-1])
+    return f
+
+
+def cases(tier, seed):
+    for case in _cases(tier, seed):
+        case["features"] = _features(case)
+        yield case
 
 
 # ------------------------------------------------------------------------------------------------------------
